@@ -1,4 +1,4 @@
 (* C10 - placeholder while the proofs are being written *)
 Require Import D42.Prelude D42.Declare.
-Example c10_stub : run [] SNone = Ok SNone.
+Example c10_stub : run [] (bare KdNone) = Ok (bare KdNone).
 Proof. reflexivity. Qed.
